@@ -29,3 +29,39 @@ add("C12", "exploration",
     "Selection is enumerated exhaustively for all ordered preference lists of length 0..3 over a 6-suite universe against all 64 advertised subsets and compared with a small model; the answer side rewrites the algorithm triple (all values per axis, PRNG triples; thorough: all 64^3 for three proposals) and requires an error unless it equals the proposal.",
     "Trusted base: refbmc's cipher suite record encoding (table 22-19) and handshake.",
     "DESIGN.md 5/C12")
+
+add("C02", "fault_enumeration",
+    "single-fault transcript mutator between the simulated BMC and the real handshake; oracle = (nil, error) and the named sentinel error",
+    "Exhaustive per authentication algorithm over every bit of the authenticated RAKP 2 fields, the BMC session ID (with a man in the middle), the RAKP 4 ICV, every status and wrong tag in the three replies and every truncation, plus wrong password / KG.",
+    "Trusted base: refbmc handshake; replies delivered as the production transport would (window into a reused buffer).",
+    "DESIGN.md 5/C02")
+
+add("C03", "exploration",
+    "online wire monitor in the simulated BMC: per-datagram verification of header, integrity trailer, AuthCode, AES-CBC framing, checksums and decrypted command against independent request tables; global IV-uniqueness set",
+    "All nine suites; every opaque body length 0..200 in the three NetFn classes in ascending and shuffled order; mixed histories of all library commands with retransmissions; fresh and long-lived connections; also over loopback UDP.",
+    "Trusted base: refbmc/refcodec reading of IPMI v2.0 13.28-13.29 and the request tables. Sampled field values.",
+    "DESIGN.md 5/C03")
+
+add("C04", "fault_enumeration",
+    "forgery catalogue and exhaustive bit-flip/truncation injection on authentic replies, with and without the session keys; oracle = error or authentic value after the authentic datagram",
+    "Every catalogue item x nine suites x three commands in two delivery modes; every single-bit flip (thorough) and every truncation of the authentic reply.",
+    "Forged packets carry a different body so acceptance is visible; RMCP header bits are outside the authenticated range.",
+    "DESIGN.md 5/C04")
+
+add("C09", "fault_enumeration",
+    "sequence monitor over datagrams recorded at the transport boundary, in transmission order, under scripted per-attempt outcomes",
+    "Exhaustive outcome sequences for histories of 1..3 commands to the stated depths plus long random histories with session-less commands and unserialisable requests; monitor: SID and sequence == transmission index, session counter == datagrams transmitted.",
+    "Scripted BMC; zero back-off through the hook.",
+    "DESIGN.md 5/C09")
+
+add("C10", "fault_enumeration",
+    "executable reference model of the documented retry contract compared with transmissions counted at the transport and BMC-verified retransmission content",
+    "Every outcome sequence retry^k.terminal (k<=4 session-less, <=3 in-session; thorough 6/5) for 10 commands, context cancellation at every step, retry sequences on each handshake payload.",
+    "Model assumptions are listed in the evidence; back-off timing not asserted.",
+    "DESIGN.md 5/C10")
+
+add("C11", "fault_enumeration",
+    "stray-reply injection (authentic in session) for all ordered command pairs and patterns; oracle = error or own value, follow-up commands re-synchronise; real socket-queue duplicates over UDP",
+    "All ordered pairs of 10 commands x 5 patterns x {session-less, in-session}, plus UDP histories with real duplicated datagrams.",
+    "Same-command duplicates cannot be distinguished under the statement; the UDP queue-off-by-one consequence is an open known finding.",
+    "DESIGN.md 5/C11")
